@@ -51,6 +51,9 @@ func (e *Engine) record(ev Event) {
 	if e.pure == 0 {
 		ev.Seq = len(e.events)
 		ev.InLoop = e.inLoop > 0
+		if e.curState != nil && e.fc != nil && len(e.fc.EffectCl) > 0 {
+			ev.St = e.curState.clone() // the heap at the time of the call: effect conditions look through pointers in it
+		}
 		e.events = append(e.events, ev)
 	}
 }
@@ -100,6 +103,7 @@ var memorySafePkgs = map[string]bool{"fmt": true, "errors": true, "strings": tru
 
 func (e *Engine) doCall(f *frame, st *State, cc *ssa.CallCommon, args []Val, fnv Val, reach string, pos token.Pos, site *ssa.Call) (Val, *State, string) {
 	sig := cc.Signature()
+	e.curState = st
 	if cc.IsInvoke() {
 		recvT := ""
 		if ts, _ := e.flatTerms(st, fnv); len(ts) == 1 {
@@ -299,6 +303,14 @@ func (e *Engine) callFunc(f *frame, st *State, callee *ssa.Function, bind []Val,
 		return v, st, reach
 	}
 	display := fnDisplayName(callee)
+	// a callee declared `pure` is a deterministic function of its arguments: at call sites (in code and in specs alike)
+	// it is an uninterpreted function application; its own contract, verified separately, says what it computes
+	if fc := e.ctx.contractOf(callee); fc != nil && fc.Pure && callee != e.top {
+		if v, ok := e.pureApp(callee, args, st); ok {
+			e.trustedUsed["pure function (deterministic, no side effects): "+callee.String()] = true
+			return v, st, reach
+		}
+	}
 	// contract of the callee (modular reasoning)
 	// (closures are executed in the context of their parent; their own contract is checked when they are verified standalone)
 	if fc := e.ctx.contractOf(callee); fc != nil && callee != e.top && callee.Parent() == nil && e.pure == 0 && !e.cfg.Inline[display] && !e.cfg.Inline[name] {
